@@ -13,6 +13,16 @@
     mazes, grid 2..10, solutions of length 1 and 2) x 8 option combinations; RasterizedMazeDataset[i]
     and get_batch(idxs) of datasets built by from_base_MazeDataset / from_config_augmented; the two
     post-processing helpers on arbitrary small images.
+    HISTORIES (state that must not matter): one maze object under all option combinations in several
+    orders (A-B-A, with/without), the returned tensor / the maze's rendered picture overwritten in
+    place in between, the maze used otherwise (hash, ascii, ==); mazes of decreasing / increasing /
+    scrambled shapes (narrow then wide) in one process; every dataset read in two passes on the SAME
+    object (items, batches, every tensor handed out overwritten, batches again, items read twice);
+    datasets of different grid sizes built one after the other in one process.  Each step is an
+    ordinary record judged against the spec, i.e. compared with what a fresh object must give.
+    MAGNITUDES: grids 33, 65, 2x130, 130x2 (picture 261 and extended picture 524 pixels wide: pixel
+    coordinates cross 127/128 and 255/256), solutions of 301 cells, isolated cells at the largest
+    coordinates, a dataset of 260 items (thorough: 1030) read and batched at indices 127..129, 255, 256.
 
 Interpretation decisions (kept no stronger than the statement):
  * "open" in "open pixels with no open 4-neighbour" = not a wall (docstring of _remove_isolated_cells:
@@ -899,6 +909,7 @@ def main(chk: lib.Check) -> int:
         "solutions and the library's own generate_random_path; hand-built mazes with isolated cells; datasets (from_base_MazeDataset with explicit and "
         "default options, from_config_augmented for the five generators) with every item and index lists in order, reversed, repeated, single, random, "
         "empty and None; the two post-processing helpers on every wall/open image up to 3x3 (+3x4, 4x3) and random coloured images up to 9x9. "
+        "histories on one maze / dataset object and across shapes in one process (results overwritten in between); grids 33, 65, 2x130, 130x2 and a 260-item dataset. "
         "non-trivial = solution of >= 2 cells or remove_isolated_cells on (items), >= 2 mazes (datasets), image with an open pixel (helpers)"
     )
     chk.notes["records_by_kind"] = {}
@@ -931,7 +942,7 @@ def main(chk: lib.Check) -> int:
         step = max(1, n // 16)
         jobs += [(rr, cc, lo, min(n, lo + step)) for lo in range(0, n, step)]
     rng = np.random.default_rng([chk.seed, 1])
-    sampled = [(3, 3, 48)] if thorough else [(2, 3, 16), (3, 2, 16), (3, 3, 4)]  # seeded graphs of the next shapes
+    sampled = [(3, 3, 48)] if thorough else [(2, 3, 12), (3, 2, 12), (3, 3, 2)]  # seeded graphs of the next shapes
     for rr, cc, cnt in sampled:
         jobs += [(rr, cc, int(g), int(g) + 1) for g in sorted(rng.choice(mz.n_graphs(rr, cc), size=cnt, replace=False).tolist())]
     recs = [x for sub in lib.pmap(observe_graphs, jobs) for x in sub]
@@ -941,7 +952,7 @@ def main(chk: lib.Check) -> int:
     chk.notes["exhaustive_scope"] = "all graphs x all ordered (start,end) incl. equal x all shortest paths x 8 option combinations for shapes " + str(shapes) + " + seeded graphs (shape, count): " + str(sampled)
 
     # ---- (C2) generators, hand-built mazes
-    nrand = 3000 if thorough else 144
+    nrand = 3000 if thorough else 112
     per = 500
     for b0 in range(0, nrand, per):
         recs = [x for sub in lib.pmap(observe_random, [(chk.seed, k, 10) for k in range(b0, min(nrand, b0 + per))], chunksize=2) for x in sub]
